@@ -7,6 +7,7 @@ import (
 	"fmt"
 	"strings"
 	"sync"
+	"sync/atomic"
 	"testing"
 	"time"
 
@@ -773,7 +774,7 @@ func TestStartupInterference(t *testing.T) {
 	rapid.Check(t, func(t *rapid.T) {
 		n := rapid.IntRange(1, 4).Draw(t, "handlers")
 		skip := rapid.IntRange(0, n-1).Draw(t, "afterStarts")
-		action := rapid.SampledFrom([]string{"cancel-before-run", "cancel-during-startup", "second-run-during-startup", "close-before-run", "subscribe-fails"}).Draw(t, "action")
+		action := rapid.SampledFrom([]string{"cancel-before-run", "cancel-during-startup", "second-run-during-startup", "close-before-run", "subscribe-fails", "subscribe-fails-then-retried", "cancel-with-no-handlers-then-add"}).Draw(t, "action")
 		closeTimeout := 5 * time.Second
 		if action == "close-before-run" || action == "subscribe-fails" {
 			closeTimeout = 50 * time.Millisecond // Close of a never-run router with handlers runs into its timeout on the unchanged tree
@@ -784,6 +785,11 @@ func TestStartupInterference(t *testing.T) {
 		}
 		ctl := lib.Install()
 		defer ctl.Uninstall()
+		if action == "subscribe-fails-then-retried" || action == "cancel-with-no-handlers-then-add" {
+			lateStartFlows(t, router, action)
+			lib.Case(fmt.Sprintf("startup|%s", action), true, "startup-interference", action)
+			return
+		}
 		var allSubs []*lib.ScriptSub
 		for i := 0; i < n; i++ {
 			ss := lib.NewScriptSub("")
@@ -921,4 +927,106 @@ func TestStartupInterference(t *testing.T) {
 			lib.Sample(map[string]any{"test": "StartupInterference", "action": action, "handlers": n, "after_starts": skip + 1})
 		}
 	})
+}
+
+// lateStartFlows: two call sequences around handlers that are started late.
+func lateStartFlows(t *rapid.T, router *message.Router, action string) {
+	ctx, cancel := context.WithCancel(context.Background())
+	defer cancel()
+	runRet := make(chan error, 1)
+	expectRunReturn := func(why string) {
+		select {
+		case err := <-runRet:
+			if err != nil {
+				t.Fatalf("violation: Run returned %v after %s, want nil", err, why)
+			}
+		case <-time.After(lib.Live):
+			router.Close()
+			t.Fatalf("violation: Run did not return within %v after %s", lib.Live, why)
+		}
+	}
+	handled := func(sub *lib.ScriptSub, what string) {
+		if !sub.WaitSubs(1, lib.Live) {
+			t.Fatalf("violation: %s has no subscription", what)
+		}
+		d, ok := sub.Subs()[len(sub.Subs())-1].Emit(message.NewMessage("m", nil), "", 0, lib.Live)
+		if !ok {
+			t.Fatalf("violation: %s does not take messages any more", what)
+		}
+		if acked, settled := d.Wait(lib.Live); !settled || !acked {
+			t.Fatalf("violation: message of %s not acked (settled=%v)", what, settled)
+		}
+	}
+	nop := func(*message.Message) error { return nil }
+	switch action {
+	case "subscribe-fails-then-retried":
+		// a handler whose first Subscribe fails and whose second one works is, from then on, a handler like any other:
+		// the router lives as long as it lives, and ends when it ends
+		subA, subB := lib.NewScriptSub(""), lib.NewScriptSub("")
+		hA := router.AddNoPublisherHandler("a", "t", subA, nop)
+		go func() { runRet <- router.Run(ctx) }()
+		select {
+		case <-router.Running():
+		case <-time.After(lib.Live):
+			t.Fatalf("harness: router did not start")
+		}
+		var subscribeCalls atomic.Int64
+		subB.SubscribeErr = func(int, string) error {
+			if subscribeCalls.Add(1) == 1 {
+				return stderrors.New("topic not there yet")
+			}
+			return nil
+		}
+		hB := router.AddNoPublisherHandler("b", "t", subB, nop)
+		if err := router.RunHandlers(ctx); err == nil {
+			t.Fatalf("violation: RunHandlers returned nil although a Subscribe failed")
+		}
+		if err := router.RunHandlers(ctx); err != nil {
+			t.Fatalf("violation: the repeated RunHandlers failed although every Subscribe works now: %v", err)
+		}
+		select {
+		case <-hB.Started():
+		case <-time.After(lib.Live):
+			t.Fatalf("violation: handler b was not started by the repeated RunHandlers")
+		}
+		hA.Stop()
+		select {
+		case <-hA.Stopped():
+		case <-time.After(lib.Live):
+			t.Fatalf("violation: Stopped() of handler a not closed")
+		}
+		time.Sleep(5 * time.Millisecond)
+		select {
+		case err := <-runRet:
+			t.Fatalf("violation: Run returned (%v) although handler b is still running (only handler a was stopped)", err)
+		default:
+		}
+		handled(subB, "handler b (started by the repeated RunHandlers), after handler a was stopped")
+		hB.Stop()
+		expectRunReturn("the last handler was stopped")
+	case "cancel-with-no-handlers-then-add":
+		// Run on a router without handlers; its context ends; handlers added and started later still count: when the
+		// last of them ends the router closes itself
+		go func() { runRet <- router.Run(ctx) }()
+		select {
+		case <-router.Running():
+		case <-time.After(lib.Live):
+			t.Fatalf("harness: router did not start")
+		}
+		time.Sleep(time.Duration(rapid.IntRange(0, 2).Draw(t, "delayMs")) * time.Millisecond)
+		cancel()
+		time.Sleep(time.Duration(rapid.IntRange(0, 2).Draw(t, "delayMs2")) * time.Millisecond)
+		sub := lib.NewScriptSub("")
+		h := router.AddNoPublisherHandler("late", "t", sub, nop)
+		if err := router.RunHandlers(context.Background()); err != nil {
+			t.Fatalf("violation: RunHandlers: %v", err)
+		}
+		select {
+		case <-h.Started():
+		case <-time.After(lib.Live):
+			t.Fatalf("violation: late handler not started")
+		}
+		h.Stop()
+		expectRunReturn("the only handler (added after the Run context had ended) was stopped")
+	}
 }
